@@ -717,6 +717,8 @@ func typedAPI(repM, repU *Report, wM, wU *CaseWriter, r *rand.Rand, thorough boo
 	apiHookKeyOrder(repM, repU, r)
 	apiInterleavedTaps(repM)
 	apiCtxBuilders(repM, repU)
+	apiUnmarshalSinkReuse(repU)
+	apiRound7Typed(repM, repU)
 	apiKeysNaNAndCycles(repM, "C08")
 	apiUnicodeFieldNames(repU)
 	apiOddsAndEnds(repM, repU)
@@ -2625,5 +2627,167 @@ func apiTreeEditsStayPrivate(rep *Report, props ...string) {
 			}
 			rep.violate(p, key, fmt.Sprintf("after the nodes of one tree were rewritten in place, marshalling an unrelated value gives [%s] (%v) instead of [%s]; sb.Nil=%v", truncate(descTokens(after), 200), e2, truncate(descTokens(before), 200), sb.Nil), "a tree edited in place")
 		}
+	}
+}
+
+// ---- round 7, second part ----
+
+// an Unmarshal sink VALUE used for a second stream: each run decodes into the target as a run on a fresh sink does
+type chainP struct {
+	Tags []string
+	Next *chainP
+}
+
+func apiUnmarshalSinkReuse(repU *Report) {
+	v1 := &chainP{Tags: []string{"a", "b", "c"}, Next: &chainP{Tags: []string{"n"}}}
+	v2 := &chainP{Tags: []string{"c"}}
+	ts1, _ := marshalTokens(v1, nil)
+	ts2, _ := marshalTokens(v2, nil)
+	var target *chainP
+	sink := sb.Unmarshal(&target)
+	e1 := guard(func() error { return copyBudget(tokensFrom(ts1), sink) })
+	first := target
+	firstCopy, _ := marshalTokens(first, nil)
+	target = nil
+	e2 := guard(func() error { return copyBudget(tokensFrom(ts2), sink) })
+	repU.Evaluations += 2
+	repU.count("api:unmarshal-sink-reuse")
+	got2, _ := marshalTokens(target, nil)
+	firstAfter, _ := marshalTokens(first, nil)
+	if e1 != nil || e2 != nil || !tokensExactEq(got2, ts2) || !tokensExactEq(firstCopy, ts1) || !tokensExactEq(firstAfter, ts1) {
+		what := fmt.Sprintf("one Unmarshal sink value fed two streams (the target reset in between): second result [%s] (%v %v), expected [%s]; the first result afterwards [%s], expected [%s]", truncate(descTokens(got2), 200), e1, e2, truncate(descTokens(ts2), 200), truncate(descTokens(firstAfter), 200), truncate(descTokens(ts1), 200))
+		repU.violate("C01", "roundtrip-not-equivalent", what, "Unmarshal sink reused for a pointer target")
+		repU.violate("C05", "sink-reuse-differs", what, "Unmarshal sink reused for a pointer target")
+	}
+}
+
+// strict mode + a deprecation list inherited through an embedded struct + a LIVE field whose name is on that list
+type deprCarrier struct{ Extra int }
+
+func (deprCarrier) SBDeprecatedFields() []string { return []string{"Old", "Live"} }
+
+type WithInheritedDepr struct {
+	deprCarrier
+	Live int
+	Name string
+}
+
+// a registered type holding a non-nil func without results
+type RegFunc0 struct {
+	F func()
+	N int
+}
+
+func apiRound7Typed(repM, repU *Report) {
+	obj := func(fields ...sb.Token) []sb.Token {
+		return append(append([]sb.Token{tokK(sb.KindObject)}, fields...), tokK(sb.KindObjectEnd))
+	}
+	strict := sb.Ctx{DisallowUnknownStructFields: true, Unmarshal: sb.UnmarshalValue}
+	{
+		var v WithInheritedDepr
+		ts := obj(tokS("Live"), tokI(5), tokS("Old"), tokS("gone"), tokS("Name"), tokS("n"))
+		e := guard(func() error { return copyBudget(tokensFrom(ts), sb.UnmarshalValue(strict, reflect.ValueOf(&v), nil)) })
+		repU.Evaluations++
+		repU.count("api:inherited-deprecation")
+		if e != nil || v.Live != 5 || v.Name != "n" {
+			for _, p := range []string{"C05", "C16"} {
+				repU.violate(p, "assign-by-name", fmt.Sprintf("strict mode, a live field whose name is also on the inherited deprecation list: got %+v (%v), the field must be assigned", v, e), "stream=["+descTokens(ts)+"]")
+			}
+		}
+		var w WithInheritedDepr
+		e = guard(func() error {
+			return copyBudget(tokensFrom(obj(tokS("Nope"), tokI(1))), sb.UnmarshalValue(strict, reflect.ValueOf(&w), nil))
+		})
+		if classOf(e) != "EUnknownField" {
+			repU.violate("C16", "strict-unknown-accepted", fmt.Sprintf("an unknown, undeclared name under strict mode: %v", e), "WithInheritedDepr")
+		}
+	}
+	{
+		t := reflect.TypeOf(RegFunc0{})
+		sb.Register(t)
+		called := 0
+		v := RegFunc0{F: func() { called++ }, N: 4}
+		ts, err := marshalTokens(v, nil)
+		var x any
+		e := guard(func() error { return copyBudget(tokensFrom(ts), sb.Unmarshal(&x)) })
+		re, e2 := marshalTokens(x, nil)
+		repU.Evaluations++
+		repU.count("api:registered-func0")
+		if err != nil || e != nil || e2 != nil || !tokensExactEq(re, ts) {
+			repU.violate("C11", "any-not-lossless", fmt.Sprintf("a registered type holding a non-nil func() decodes into any and re-marshals to [%s] (%v %v %v), the stream was [%s]", descTokens(re), err, e, e2, descTokens(ts)), "RegFunc0")
+			repU.violate("C01", "roundtrip-not-equivalent", fmt.Sprintf("a registered type holding a non-nil func() decodes into any and re-marshals to [%s] (%v %v %v), the stream was [%s]", descTokens(re), err, e, e2, descTokens(ts)), "RegFunc0")
+		}
+		var back RegFunc0
+		e3 := guard(func() error { return copyBudget(tokensFrom(ts), sb.Unmarshal(&back)) })
+		if e3 != nil || back.F == nil || back.N != 4 {
+			repU.violate("C01", "roundtrip-not-equivalent", fmt.Sprintf("a non-nil func() field comes back as %v (%v): a non-nil tuple func with no results must stay non-nil", back.F == nil, e3), "RegFunc0")
+		}
+	}
+}
+
+// Compare over streams that deliver no token at all, whatever state their values are in
+func apiCompareEmptyStreams(rep *Report) {
+	drained := tokensFrom([]sb.Token{tokI(1)})
+	collect(drained)
+	mk := map[string]func() sb.Stream{
+		"nil Stream":             func() sb.Stream { return nil },
+		"ConcatStreams()":        func() sb.Stream { return sb.ConcatStreams() },
+		"an already drained one": func() sb.Stream { return drained },
+		"Tokens{}.Iter()":        func() sb.Stream { return sb.Tokens{}.Iter() },
+		"Decode of empty input":  func() sb.Stream { return sb.Decode(bytes.NewReader(nil)) },
+		"FilterProc dropping all": func() sb.Stream {
+			return sb.FilterProc(tokensFrom([]sb.Token{tokI(1), tokS("x")}), func(*sb.Token) bool { return false })
+		},
+		"a zero Proc": func() sb.Stream { var p sb.Proc; return &p },
+	}
+	for na, a := range mk {
+		for nb, b := range mk {
+			var res int
+			var err error
+			e := guard(func() error { res, err = sb.Compare(a(), b()); return nil })
+			rep.Evaluations++
+			rep.count("api:compare-empty-streams")
+			if e != nil || err != nil || res != 0 {
+				rep.violate("C06", "not-the-documented-order", fmt.Sprintf("two streams without tokens compare %d (%v %v)", res, err, e), na+" vs "+nb)
+			}
+			one := tokensFrom([]sb.Token{tokI(1)})
+			e = guard(func() error { res, err = sb.Compare(a(), one); return nil })
+			if e != nil || err != nil || res != -1 {
+				rep.violate("C06", "not-the-documented-order", fmt.Sprintf("an empty stream against [Int 1] compares %d (%v %v), a proper prefix sorts first", res, err, e), na+" vs [Int 1]")
+			}
+		}
+	}
+}
+
+// faults travel through Sink.Marshal
+func apiSinkMarshalFaults(rep *Report) {
+	v := struct {
+		A int
+		B string
+		C []int
+	}{1, "some text", []int{1, 2, 3}}
+	ts, _ := marshalTokens(v, nil)
+	full := runEncode(ts, 0, 0)
+	for fl := range writerFlavours {
+		for k := 1; k <= full.calls+1 && k < 40; k++ {
+			w, _ := mkWriter(fl, k)
+			var err error
+			e := guard(func() error { _, err = sb.Encode(w).Marshal(v); return nil })
+			rep.Evaluations++
+			rep.count("api:sink-marshal-faults")
+			probe, _ := mkWriter(fl, k)
+			pe := guard(func() error { return sb.Copy(tokensFrom(ts), sb.Encode(probe)) })
+			if e != nil || (classOf(pe) == "EFault") != (classOf(err) == "EFault") {
+				rep.violate("C15", "write-fault-lost", fmt.Sprintf("writer %q failing at call %d: Copy into Encode reports %v, Encode(w).Marshal(v) reports %v (%v)", writerFlavours[fl], k, pe, err, e), "Sink.Marshal over a failing writer")
+			}
+		}
+	}
+	// a failing sink behind Sink.Marshal
+	var s sb.Sink = func(t *sb.Token) (sb.Sink, error) { return nil, errInjected }
+	_, err := s.Marshal(v)
+	var tgt int
+	_, err2 := sb.Unmarshal(&tgt).Marshal("not an int")
+	if classOf(err) != "EFault" || err2 == nil {
+		rep.violate("C15", "sink-fault-lost", fmt.Sprintf("a failing sink behind Sink.Marshal: %v; a type mismatch behind Sink.Marshal: %v", err, err2), "Sink.Marshal over a failing sink")
 	}
 }
